@@ -172,13 +172,13 @@ class Part(object):
                     (tN, beats, beat_type, musical_beats),
                 ]
             )
-        elif len(tss) == 1:
-            # If there is only a single time signature
-            tss = np.array([tss[0, :], tss[0, :]])
         elif tss[0, 0] > self.first_point.t:
             tss = np.vstack(
                 ((self.first_point.t, tss[0, 1], tss[0, 2], tss[0, 3]), tss)
             )
+        elif len(tss) == 1:
+            # If there is only a single time signature
+            tss = np.array([tss[0, :], tss[0, :]])
 
         return interp1d(
             tss[:, 0],
